@@ -14,7 +14,9 @@ from .common import crash_failure, prod
 CTX_BITS = {"x86_SSE": 128, "x86_AVX": 256, "vector_128": 128, "vector_256": 256, "vector_512": 512, "simde_AVX512": 512}
 CTXS = list(CTX_BITS)
 DTS = ["f32", "f64"]
-DT_BITS = {"f32": 32, "f64": 64}
+INT_DTS = ["i32", "i64"]          # integer element types: binary / reduce / outer add, subtract, multiply and matmul where they compile
+DT_BITS = {"f32": 32, "f64": 64, "i32": 32, "i64": 64}
+VECTOR_CTXS = ("vector_128", "vector_256", "vector_512")
 NPDT = {"f32": np.float32, "f64": np.float64}
 EPS = {"f32": float(np.finfo(np.float32).eps), "f64": float(np.finfo(np.float64).eps)}
 
@@ -45,7 +47,13 @@ UNSUPPORTED = [
     ("*", "*", "*", "reduce keepdims=None", "index::remove_dims cannot convert None to bool"),
     ("*", "matmul", "*", "matmul with row-major rhs", "SIMD matmul evaluator static_asserts a column-major rhs"),
     ("simde_AVX512", "matmul", "f64", "matmul", "simd_op_t<simde_avx512_t,double>::fmadd calls simde_mm512_fmadd_ps"),
-    ("*", "*", "integers", "*", "evaluators static_assert / intrinsics wrappers only implement float and double arithmetic"),
+    ("*", "unary ops", "i*", "unary", "eval_unary static_asserts a floating point element type"),
+    ("*", "*", "i8/i16/u*", "*", "8/16-bit elements do not compile (integer promotion changes the result type); unsigned not generated"),
+    ("*", "divide", "i32/i64", "binary", "no integer div in the x86/SIMDe wrappers; not instantiated for the vector extensions (NumPy true division is no reference)"),
+    ("x86_SSE/x86_AVX", "multiply", "i64", "binary/reduce/outer", "no 64-bit integer mul in simd_op_t"),
+    ("x86_AVX/simde_AVX512", "matmul", "i32", "matmul", "no integer fmadd"),
+    ("x86_SSE/x86_AVX/simde_AVX512", "matmul", "i64", "matmul", "no integer fmadd"),
+    ("*", "*", "i32/i64", "column-major operands; reduce keepdims/initial variants", "not instantiated in the server (compile time)"),
 ]
 
 # finding classes confirmed as genuine defects of the library (excluded by construction; see _finding)
@@ -65,6 +73,32 @@ def lanes(ctx, dt):
     return CTX_BITS[ctx] // DT_BITS[dt]
 
 
+def is_int(dt):
+    return dt in INT_DTS
+
+
+def op_ok(ctx, dt, f):
+    """integer combinations that compile (mirrors mul_ok_v in harness/srv_simd.cpp)"""
+    if not is_int(dt):
+        return True
+    if f == "divide":
+        return False
+    if f == "multiply" and dt == "i64":
+        return ctx in VECTOR_CTXS or ctx == "simde_AVX512"
+    return True
+
+
+def matmul_ok(ctx, dt):
+    """mirrors matmul_ok_v in harness/srv_simd.cpp"""
+    if dt == "f32":
+        return True
+    if dt == "f64":
+        return ctx != "simde_AVX512"
+    if dt == "i32":
+        return ctx == "x86_SSE" or ctx in VECTOR_CTXS
+    return ctx in VECTOR_CTXS
+
+
 # ---------------------------------------------------------------------------
 # data: deterministic pseudo-random values in +-[0.5, 2] * scale (never arange: products stay informative,
 # a wrong identity element or a dropped tail element changes the result)
@@ -73,9 +107,21 @@ def rnd(dt, x):
     return float(np.float32(x)) if dt == "f32" else float(x)
 
 
-def lcg_data(key, n, dt, scale=1.0, positive=False):
+def lcg_data(key, n, dt, scale=1.0, positive=False, product=False):
     s = zlib.crc32(key.encode()) or 1
     out = []
+    if is_int(dt):
+        # non-zero integers in +-[1, 9]; for products: +-1 everywhere except +-{2, 3} at <= 18 positions counted from the END
+        # (the tail elements are the informative ones), so that no int32 product overflows
+        step = max(1, -(-n // 18))
+        for i in range(n):
+            s = (s * 1664525 + 1013904223) & 0xFFFFFFFF
+            if product:
+                v = 2 + ((s >> 9) & 1) if (n - 1 - i) % step == 0 else 1
+            else:
+                v = 1 + ((s >> 8) % 9)
+            out.append(-v if (s >> 27) & 1 else v)
+        return out
     for _ in range(n):
         s = (s * 1664525 + 1013904223) & 0xFFFFFFFF
         u = ((s >> 8) & 0xFFFF) / 65536.0
@@ -104,7 +150,7 @@ def mk(ctx, f, form, dt, a, b=None, **kw):
 
 
 def arr_of(o, dt):
-    return np.array(o["data"], dtype=np.float64).reshape(o["shape"])
+    return np.array(o["data"], dtype=np.int64 if is_int(dt) else np.float64).reshape(o["shape"])
 
 
 # ---------------------------------------------------------------------------
@@ -170,11 +216,11 @@ class C12(Prop):
     id = "C12"
     servers = ["simd"]
     chunk = 250
-    rule = ("case = (context in {x86_SSE, x86_AVX, vector_128/256/512, simde_AVX512}, op, dtype in {f32, f64}, form in {unary, binary, reduce, outer, matmul}, operands "
+    rule = ("case = (context in {x86_SSE, x86_AVX, vector_128/256/512, simde_AVX512}, op, dtype in {f32, f64; i32, i64 for binary/reduce/outer add, subtract, multiply and matmul where they compile}, form in {unary, binary, reduce, outer, matmul}, operands "
             "(dynamic ndarrays, row- or column-major storage), [axis, keepdims, initial]). The server evaluates the SAME call twice on the same operands: "
             "na::fn(args..., simd_context) and na::fn(args...) (default evaluator) and reports shape, element type and every element of both. Oracle: same shape and "
             "element type, equal to the NumPy result shape; unary / binary / broadcast / outer elements identical to the scalar path (and within 4 eps of a NumPy float64 "
-            "reference); reductions and matmul within n*eps*sum|terms| (prod|x| for multiply) of the scalar path AND of the float64 reference; the ASan+UBSan server must not crash. "
+            "reference); reductions and matmul within n*eps*sum|terms| (prod|x| for multiply) of the scalar path AND of the float64 reference; integer results equal exactly (simd = scalar = NumPy int64, data chosen overflow-free); the ASan+UBSan server must not crash. "
             "Exhaustive: every 1-d length 1..4*lanes+1 for every unary/binary op x context x dtype; 2-d shapes with every broadcast pattern and extents around multiples of the "
             "lane count; 1..3-d reductions over every axis, axis=None and an axis list, keepdims {default, true, false, True, False}, with/without initial; outer and matmul shapes "
             "around lane multiples; row- and column-major operands. Data are LCG pseudo-random values in +-[0.5, 2] (scaled per activation so that every branch is taken, plus "
@@ -196,6 +242,11 @@ class C12(Prop):
         for ctx in CTXS:
             for dt in DTS:
                 yield from self._unary_cases(ctx, dt, tier)
+                yield from self._binary_cases(ctx, dt, tier)
+                yield from self._reduce_cases(ctx, dt, tier)
+                yield from self._outer_cases(ctx, dt, tier)
+                yield from self._matmul_cases(ctx, dt, tier)
+            for dt in INT_DTS:
                 yield from self._binary_cases(ctx, dt, tier)
                 yield from self._reduce_cases(ctx, dt, tier)
                 yield from self._outer_cases(ctx, dt, tier)
@@ -229,6 +280,8 @@ class C12(Prop):
         ms = sorted({1, 2, max(1, L - 1), L, L + 1, 2 * L, 2 * L + 1, 3 * L + 2})
         rot = 0
         for f in BINARY:
+            if not op_ok(ctx, dt, f):
+                continue
             for n in range(1, 4 * L + 2):
                 yield mk(ctx, f, "binary", dt, operand([n], lcg_data("ba%s%s%s%d" % (ctx, dt, f, n), n, dt)), operand([n], lcg_data("bb%s%s%s%d" % (ctx, dt, f, n), n, dt)))
             for n in (1, 2, 3):
@@ -236,7 +289,7 @@ class C12(Prop):
                     for sa, sb in self.bcast_patterns(n, m):
                         rot += 1
                         pairs = [("row", "row")]
-                        if len(sa) == 2 or len(sb) == 2:
+                        if (len(sa) == 2 or len(sb) == 2) and not is_int(dt):
                             extra = [("col", "col"), ("row", "col"), ("col", "row")]
                             pairs += extra if tier == "thorough" else [extra[rot % 3]]
                         for la, lb in pairs:
@@ -258,6 +311,8 @@ class C12(Prop):
         combos = [(kd, ini) for kd in self.KD for ini in (None, 1.5)]
         rot = 0
         for f in REDUCE:
+            if not op_ok(ctx, dt, f):
+                continue
             for shape in shapes:
                 d = len(shape)
                 axes = list(range(d)) + [-k for k in range(1, d + 1)]
@@ -266,9 +321,9 @@ class C12(Prop):
                     if d == 3:
                         axes.append([0, 2])
                 for axis in axes:
-                    for layout in (("row", "col") if d > 1 else ("row",)):
-                        if isinstance(axis, list):
-                            sel = [(None, None)]                      # only the default keepdims / no initial is instantiated for axis lists
+                    for layout in (("row", "col") if d > 1 and not is_int(dt) else ("row",)):
+                        if isinstance(axis, list) or is_int(dt):
+                            sel = [(None, None)]                      # only the default keepdims / no initial is instantiated for axis lists and integers
                         elif tier == "thorough":
                             sel = combos
                         else:
@@ -277,7 +332,7 @@ class C12(Prop):
                             if (None, None) not in sel and rot % 2:
                                 sel.append((None, None))
                         for kd, ini in sel:
-                            data = lcg_data("r%s%s%s%s" % (ctx, dt, f, shape), prod(shape), dt)
+                            data = lcg_data("r%s%s%s%s" % (ctx, dt, f, shape), prod(shape), dt, product=(f == "multiply"))
                             yield mk(ctx, f, "reduce", dt, operand(shape, data, layout), axis=axis, keepdims=kd, initial=ini)
 
     def _outer_cases(self, ctx, dt, tier):
@@ -286,13 +341,15 @@ class C12(Prop):
         sbs = [[m] for m in sorted({1, 2, max(1, L - 1), L, L + 1, 2 * L + 1, 3 * L + 2})] + [[2, m] for m in sorted({1, L, L + 1})] + [[2, 1, L + 1]]
         rot = 0
         for f in OUTER:
+            if not op_ok(ctx, dt, f):
+                continue
             for sa in sas:
                 for sb in sbs:
                     rot += 1
                     pairs = [("row", "row")]
-                    if len(sa) > 1:
+                    if len(sa) > 1 and not is_int(dt):
                         pairs.append(("col", "row"))
-                    if len(sb) > 1:
+                    if len(sb) > 1 and not is_int(dt):
                         pairs.append(("row", "col"))
                     for la, lb in pairs:
                         yield mk(ctx, f, "outer", dt,
@@ -300,13 +357,13 @@ class C12(Prop):
                                  operand(sb, lcg_data("ob%s%s%s%s%s" % (ctx, dt, f, sa, sb), prod(sb), dt), lb))
 
     def _matmul_cases(self, ctx, dt, tier):
-        if ctx == "simde_AVX512" and dt == "f64":
+        if not matmul_ok(ctx, dt):
             return
         L = lanes(ctx, dt)
         for n in (1, 2, 3):
             for k in sorted({1, 2, max(1, L - 1), L, L + 1, 2 * L, 2 * L + 1, 3 * L + 2}):
                 for m in sorted({1, 2, 3, L + 1}):
-                    for la in ("row", "col"):
+                    for la in (("row",) if is_int(dt) else ("row", "col")):
                         yield mk(ctx, "matmul", "matmul", dt,
                                  operand([n, k], lcg_data("ma%s%s%d%d%d" % (ctx, dt, n, k, m), n * k, dt), la),
                                  operand([k, m], lcg_data("mb%s%s%d%d%d" % (ctx, dt, n, k, m), k * m, dt), "col"))
@@ -319,18 +376,23 @@ class C12(Prop):
         @st.composite
         def case(draw):
             ctx = draw(st.sampled_from(CTXS))
-            dt = draw(st.sampled_from(DTS))
-            L = lanes(ctx, dt)
+            dt = draw(st.sampled_from(DTS + DTS + INT_DTS))
             form = draw(st.sampled_from(["unary", "binary", "reduce", "outer", "matmul"]))
-            if form == "matmul" and ctx == "simde_AVX512":
+            if (form == "matmul" and not matmul_ok(ctx, dt)) or (form == "unary" and is_int(dt)):
                 dt = "f32"
-                L = lanes(ctx, dt)
+            L = lanes(ctx, dt)
+            ints = is_int(dt)
 
             def ext(hi=None):
                 hi = hi or 3 * L + 2
                 return draw(st.one_of(st.integers(1, min(hi, 4)), st.integers(1, hi), st.sampled_from([max(1, L - 1), L, L + 1, 2 * L, 2 * L + 1])))
 
-            def values(n, scale=1.0, positive=False):
+            def values(n, scale=1.0, positive=False, product=False):
+                if ints:
+                    if product:   # at most 18 factors of magnitude 2..3, the rest +-1: no int32 overflow
+                        big = draw(st.sets(st.integers(0, n - 1), max_size=min(n, 18)))
+                        return [(draw(st.sampled_from([2, 3])) if i in big else 1) * draw(st.sampled_from([1, -1])) for i in range(n)]
+                    return [draw(st.integers(1, 9)) * draw(st.sampled_from([1, -1])) for _ in range(n)]
                 mag = draw(st.lists(st.floats(0.5, 2.0, allow_nan=False, width=32), min_size=n, max_size=n))
                 if positive:
                     return [rnd(dt, v * scale) for v in mag]
@@ -338,7 +400,7 @@ class C12(Prop):
                 return [rnd(dt, (v if s else -v) * scale) for v, s in zip(mag, sg)]
 
             def layout():
-                return draw(st.sampled_from(["row", "row", "col"]))
+                return "row" if ints else draw(st.sampled_from(["row", "row", "col"]))
 
             if form == "unary":
                 f = draw(st.sampled_from(list(UNARY)))
@@ -351,7 +413,7 @@ class C12(Prop):
                     data[k] = rnd(dt, draw(st.sampled_from(bnd)))
                 return mk(ctx, f, "unary", dt, operand(shape, data, layout()))
             if form == "binary":
-                f = draw(st.sampled_from(BINARY))
+                f = draw(st.sampled_from([g for g in BINARY if op_ok(ctx, dt, g)]))
                 if draw(st.booleans()):
                     d = draw(st.integers(1, 3))
                     sa = [draw(st.integers(1, 3)) for _ in range(d - 1)] + [ext()]
@@ -361,7 +423,7 @@ class C12(Prop):
                     sa, sb = draw(st.sampled_from(C12.bcast_patterns(n, m)))
                 return mk(ctx, f, "binary", dt, operand(sa, values(prod(sa)), layout()), operand(sb, values(prod(sb)), layout()))
             if form == "reduce":
-                f = draw(st.sampled_from(REDUCE))
+                f = draw(st.sampled_from([g for g in REDUCE if op_ok(ctx, dt, g)]))
                 d = draw(st.integers(1, 3))
                 shape = [draw(st.integers(1, 4)) for _ in range(d - 1)] + [ext()]
                 if d > 1 and draw(st.booleans()):
@@ -380,9 +442,11 @@ class C12(Prop):
                 else:
                     axis = sorted(draw(st.sets(st.integers(0, d - 1), min_size=1, max_size=d)))
                     kd, ini = draw(st.sampled_from([None, "ct_false"])), None
-                return mk(ctx, f, "reduce", dt, operand(shape, values(prod(shape)), layout()), axis=axis, keepdims=kd, initial=ini)
+                if ints:
+                    kd, ini = draw(st.sampled_from([None, "ct_false"])), None
+                return mk(ctx, f, "reduce", dt, operand(shape, values(prod(shape), product=(f == "multiply")), layout()), axis=axis, keepdims=kd, initial=ini)
             if form == "outer":
-                f = draw(st.sampled_from(OUTER))
+                f = draw(st.sampled_from([g for g in OUTER if op_ok(ctx, dt, g)]))
                 sa = [draw(st.integers(1, 3)) for _ in range(draw(st.integers(1, 2)))]
                 sb = [draw(st.integers(1, 3)) for _ in range(draw(st.integers(0, 1)))] + [ext()]
                 la, lb = layout(), layout()
@@ -494,6 +558,36 @@ class C12(Prop):
         return out
 
     # ------------------------------------------------------------------ oracle
+    def _check_int(self, case, sv, sc, A, B):
+        """integer elements: SIMD, scalar and the NumPy int64 reference must agree exactly (data never overflow int32)"""
+        form, f = case["form"], case["f"]
+        if form == "binary":
+            ref = NPBIN[f](A, B)
+        elif form == "outer":
+            ref = NPBIN[f].outer(A, B)
+        elif form == "matmul":
+            ref = A @ B
+        else:
+            ref = NPBIN[f].reduce(A, axis=norm_axis(case["axis"], A.ndim), keepdims=case["keepdims"] in (True, "ct_true"))
+        ref = np.asarray(ref)
+        exp_shape = list(ref.shape)
+        if sc["shape"] != exp_shape:
+            return "scalar path: result shape %s, NumPy shape %s" % (sc["shape"], exp_shape)
+        if sv["shape"] != sc["shape"]:
+            return "SIMD result shape %s differs from the scalar result shape %s" % (sv["shape"], sc["shape"])
+        r = [int(v) for v in ref.reshape(-1)]
+        x, y = [int(v) for v in sv["elems"]], [int(v) for v in sc["elems"]]
+        if len(x) != len(r) or len(y) != len(r):
+            return "element count simd=%d scalar=%d, expected %d" % (len(x), len(y), len(r))
+        for k in range(len(r)):
+            if x[k] != y[k]:
+                return ("%s %s %s: SIMD result differs from the scalar result at flat index %d of %d (shape %s): simd=%r scalar=%r reference=%r (%d element(s) differ)"
+                        % (case["ctx"], form, f, k, len(r), exp_shape, x[k], y[k], r[k], sum(1 for i in range(len(r)) if x[i] != y[i])))
+        for k in range(len(r)):
+            if y[k] != r[k]:
+                return "scalar path differs from the NumPy reference at flat index %d: scalar=%r reference=%r" % (k, y[k], r[k])
+        return None
+
     def check(self, case, obs):
         cf = crash_failure(obs)
         if cf:
@@ -515,6 +609,8 @@ class C12(Prop):
         # reference
         A = arr_of(case["a"], dt)
         B = arr_of(case["b"], dt) if "b" in case else None
+        if is_int(dt):
+            return self._check_int(case, sv, sc, A, B)
         bound = None
         if form == "unary":
             ref = ref_unary(f, A, case.get("p", []))
